@@ -57,7 +57,12 @@ EnumCases == UNION {
    : i \in Idx(Ref.enums)}
 MaskCases == UNION {{[kind |-> "mask", tag |-> Ref.masks[i][1], name |-> Ref.masks[i][2], value |-> Ref.masks[i][3][k][1], vname |-> Ref.masks[i][3][k][2]]
                         : k \in Idx(Ref.masks[i][3])} : i \in Idx(Ref.masks)}
-Cases == TagCases \cup EnumCases \cup MaskCases
+\* masks of two flags: the same value is written by every form the library offers, one right after the other - the separator belongs
+\* to the form, the names and the value do not depend on which form was used before
+PairOf(m, k, j) == [kind |-> "mask2", tag |-> m[1], name |-> m[2], value |-> m[3][k][1] + m[3][j][1], vname |-> m[3][k][2] \o "|" \o m[3][j][2]]
+MaskPairCases == UNION {UNION {{PairOf(Ref.masks[i], k, j) : j \in {x \in Idx(Ref.masks[i][3]) : x > k /\ (x = k + 1 \/ x = Len(Ref.masks[i][3]))}}
+                                 : k \in Idx(Ref.masks[i][3])} : i \in Idx(Ref.masks)}
+Cases == TagCases \cup EnumCases \cup MaskCases \cup MaskPairCases
 
 Init == c \in Cases
 Next == UNCHANGED c
